@@ -83,7 +83,7 @@ def handler : Handler := fun payload impl =>
             | some (.illScoped, _) => "-"
             | some (sig, s) =>
               let rs := match sig with
-                | .found => "yes" | .failed => "no" | .cutTo _ => "no" | .raised e _ => s!"error {e}" | .illScoped => "?"
+                | .found => "yes" | .exhausted _ => "no" | .raised e _ => s!"error {e}" | .illScoped => "?"
               let want := s!"{rs} ; trace={showTrace s.trace}"
               let got := match impl.splitOn " ; " with
                 | [r, _, t] => r ++ " ; " ++ t
